@@ -30,6 +30,20 @@ def lengths : List Nat := [0, 0, 1, 1, 2, 3, 5, 8, 12, 25, 26, 27, 28, 30, 31, 3
 
 /-- about `len` units of text in the given encoding, with colour escapes and the odd defect -/
 def gUnits (enc : Enc) (len : Nat) : G (List Nat) := do
+  -- now and then a Latin-1 text whose bytes, side by side, are well-formed UTF-8 throughout (Latin-1 is not UTF-8: each
+  -- byte is a character of its own)
+  let looksUtf8 ← G.chance 1 12
+  if looksUtf8 && enc == .latin1 then
+    let pieces ← G.listOf len (G.oneOf [[0x41], [0x61], [0x20], [0x35], [0xc3, 0xa9], [0xc2, 0xb0], [0xe2, 0x82, 0xac],
+      [0xf0, 0x9f, 0x98, 0x80], [0xd0, 0x9f], [0xc3, 0xbf]])
+    let flat := pieces.flatten
+    -- cut at a group boundary
+    let rec takeGroups (ps : List (List Nat)) (room : Nat) : List Nat :=
+      match ps with
+      | [] => []
+      | p :: rest => if p.length ≤ room then p ++ takeGroups rest (room - p.length) else []
+    let _ := flat
+    return takeGroups pieces len
   let pieces ← G.listOf len (do
     let c ← G.below 40
     if c == 0 then do
